@@ -3,10 +3,10 @@
 Rule (interpretation on a finite family of abstract resource tables; the repository is never imported).
 The methods of ARSCParser.ResourceResolver are *interpreted* by agstatic/minipy.py (helper methods, static methods,
 early returns, try/finally, parameters with defaults ... are simply executed) against a model of the resource table:
-`resources.get_res_configs(id, config)` is answered from an abstract table whose entries are instances of the
-repository's own ARSCResTableEntry / ARSCComplex / ARSCResStringPoolRef classes with their fields set (their methods
-is_complex / is_compact / is_reference / get_data are interpreted from the source; only format_value is replaced by
-a label).  The family of tables: reference cycles of length 1..5, cycles whose members have two configurations with the
+the resources object is an instance of the repository's own ARSCParser whose lookup tables (resource_values, values,
+packages) describe an abstract table, so get_res_configs / get_id / get_resource_xml_name ... are interpreted from the
+source too; entries are instances of ARSCResTableEntry / ARSCComplex / ARSCResStringPoolRef with their fields set (only
+format_value is replaced by a label).  The family of tables: reference cycles of length 1..5, cycles whose members have two configurations with the
 back reference in the second one, cycles through complex entries, a self-referencing complex entry, a diamond, a
 chain, null and dangling references, a compact entry; resolved for all configurations and for one configuration, and
 twice in a row on the same resolver.
@@ -92,7 +92,21 @@ TABLES = [
     ("null and dangling references", {1: [("c", ("complex", [("ref", 0), ("ref", 99), ("leaf", 81)]))]}, 1),
     ("compact entry and plain value", {1: [("c1", ("compact", 5)), ("c2", ("leaf", 91))]}, 1),
     ("cycle with a branch to a value", {1: [("c", ("ref", 2))], 2: [("c", ("complex", [("ref", 1), ("ref", 3)]))], 3: [("c", ("leaf", 95))]}, 1),
+    # the closing back edge is taken more than once within one resolve()
+    ("cycle of length 2, both configurations of both members reference the other", {
+        1: [("c1", ("ref", 2)), ("c2", ("ref", 2))], 2: [("c1", ("ref", 1)), ("c2", ("ref", 1))]}, 1),
+    ("complex entry with two items referencing a resource that points back", {1: [("c", ("complex", [("ref", 2), ("ref", 2), ("leaf", 96)]))], 2: [("c", ("ref", 1))]}, 1),
+    ("three configurations referencing back", {1: [("c1", ("ref", 2)), ("c2", ("ref", 2)), ("c3", ("ref", 2))], 2: [("c1", ("ref", 1)), ("c2", ("leaf", 97)), ("c3", ("ref", 1))]}, 1),
+    # members that exist only under locale-qualified configurations (no default-locale entry)
+    ("cycle closed at a resource without default-locale entry", {1: [("loc_de", ("ref", 2)), ("loc_fr", ("ref", 2))], 2: [("c", ("ref", 1))]}, 1),
+    ("cycle entered at the member that has a default-locale entry", {1: [("loc_de", ("ref", 2))], 2: [("c", ("ref", 1)), ("loc_de", ("leaf", 98))]}, 2),
+    ("locale-only chain", {1: [("loc_de", ("ref", 2))], 2: [("loc_de", ("leaf", 99))]}, 1),
 ]
+DEFAULT_LOCALE = "\x00\x00"
+
+
+def locale_of(cfg_name):
+    return cfg_name[4:] if cfg_name.startswith("loc_") else DEFAULT_LOCALE
 
 
 def reachable_leaves(table, start, config=None):
@@ -185,6 +199,22 @@ class Core:
                 rows[rid].append((c, e))
         return cfgs, rows
 
+    def parser_obj(self, it, table, cfgs, rows):
+        """an ARSCParser whose lookup tables describe the abstract table; its methods (get_res_configs, get_id,
+        get_resource_xml_name, get_packages_names ...) are interpreted from the source"""
+        pcls = self.m.cls("ARSCParser")
+        o = Obj(pcls)
+        pkg = "com.example"
+        values = {pkg: {}}
+        for rid, ents in table.items():
+            for cfg, spec in ents:
+                loc = values[pkg].setdefault(locale_of(cfg), {"public": [], "string": [], "id": []})
+                loc["public"].append(("string", "res%d" % rid, rid))
+        o.attrs.update(analyzed=True, packages={pkg: []}, values=values,
+                       resource_values={rid: {c: e for c, e in ents} for rid, ents in rows.items()},
+                       resource_configs={pkg: {}}, resource_keys={pkg: {}}, stringpool_main=Obj(None, "stringpool"))
+        return o
+
     def scenario(self, name, table, start, config):
         """-> list of outcomes for: resolve(start), resolve(start) again on the same resolver"""
         cls = self.resolver_cls()
@@ -200,21 +230,10 @@ class Core:
             raise PyRaise("RecursionError", node)
 
         it = Interp(self.ctx.repo, None, {"func": stub, "depth": depth}, (), max_steps=400000)
-        it.max_depth = PY_RECURSION_LIMIT - 5     # frames of the callers (get_resolved_res_configs, get_app_name, ...) are not modelled
+        it.max_depth = getattr(self, "limit", PY_RECURSION_LIMIT) - 5     # frames of the callers (get_resolved_res_configs, get_app_name, ...) are not modelled
         cfgs, rows = self.build(it, table)
 
-        def get_res_configs(it_, args, kwargs, node):
-            rid = args[0] if args else kwargs.get("rid")
-            cfg = args[1] if len(args) > 1 else kwargs.get("config")
-            if isinstance(rid, (Obj, Sym)):
-                raise NotEvaluable("get_res_configs called with %r" % (rid,))
-            out = rows.get(rid, [])
-            if cfg is not None:
-                out = [(c, e) for c, e in out if c is cfg]
-            return list(out)
-
-        res = Obj(None, "resources")
-        res.attrs["get_res_configs"] = Native("resources.get_res_configs", get_res_configs)
+        res = self.parser_obj(it, table, cfgs, rows)
         wanted = cfgs[config] if config is not None else None
         outcomes = []
         try:
@@ -228,9 +247,25 @@ class Core:
                     raise NotEvaluable("the resolver's control flow depends on values the table model leaves open")
                 outcomes.append(("ok", r))
             except PyRaise as e:
-                outcomes.append(("raise", e.name, e.node, state.get("stack", [])))
+                genuine = getattr(e, "on_none", False) or isinstance(e.node, ast.Raise)
+                outcomes.append(("raise", e.name, e.node, state.get("stack", []) or list(it.stack[-3:]), genuine, list(getattr(e, "where", []) or [])))
                 break
         return outcomes
+
+    def _func_of(self, node):
+        """the function (of the resolver or of the module) that contains an AST node"""
+        n = node
+        while n is not None and not isinstance(n, (ast.FunctionDef, ast.AsyncFunctionDef)):
+            n = parent(n)
+        if n is None:
+            return None
+        for f in self.funcs.values():
+            if f.node is n:
+                return f
+        for f in self.m.functions.values():
+            if f.node is n:
+                return f
+        return None
 
     # ------------------------------------------------------------------
     def run(self):
@@ -255,6 +290,7 @@ class Core:
             scen.append((name, table, start, None))
         scen.append(("cycle of length 2, two configurations, back reference in the second / one configuration", TABLES[5][1], 1, "c2"))
         scen.append(("cycle of length 3, two configurations / one configuration", TABLES[6][1], 1, "c1"))
+        scen.append(("cycle of length 2, both configurations of both members reference the other / one configuration", TABLES[15][1], 1, "c1"))
         nonterm = 0
         only = getattr(self, "only_tables", None)
         for name, table, start, config in scen:
@@ -273,6 +309,17 @@ class Core:
             bad = False
             for k, o in enumerate(outs):
                 if o[0] == "raise":
+                    if o[1] != "RecursionError" and o[4]:
+                        # an exception the interpreted repository code raises itself on fully concrete table data
+                        # (an explicit `raise`, or an operation on a None it computed) -- resolve() does not return
+                        qn = self._func_of(o[2])
+                        f = qn or fres
+                        ctx.check("terminates", label, False, f, o[2] if o[2] is not None else "exception",
+                                  "%s does not return: %s is raised at `%s`%s" % (label, o[1], norm(o[2])[:70] if o[2] is not None else "?",
+                                                                             " (operation on None)" if not isinstance(o[2], ast.Raise) else ""),
+                                  node=o[2], witness=dict(table={str(k_): [(c, list(e) if e[0] != "complex" else ["complex", e[1]]) for c, e in v] for k_, v in table.items()}, start=start))
+                        bad = True
+                        break
                     if o[1] != "RecursionError":
                         raise AnalysisError("%s: interpreted resolve() ended in %s at `%s`: not a modelled outcome" % (label, o[1], norm(o[2])[:60] if o[2] is not None else "?"))
                     cyc = []
@@ -383,6 +430,7 @@ def _fixture_run(ctx, text):
     c.cls_node, c.outer = tree.body[0], ""
     c.funcs = {n.name: F(c.m, c.cls_node, n, "") for n in c.cls_node.body if isinstance(n, ast.FunctionDef)}
     c.only_tables = ("cycle of length 2", "chain")
+    c.limit = 300      # the fixture only has to show that unbounded recursion is noticed; a lower limit keeps every run fast
     _in_big_stack(c.run)
     return s
 
